@@ -80,6 +80,44 @@ T = {
     "read high watermark set, cleared to 0, set again; then more than `high` bytes arrive and the application drains outside the read callback"),
  "C18-filter-stale-limit": ("C18", "/tmp/adv_C18", "demo/patch2.diff", "demo/run.sh", ["C18"],
     "filter over an underlying bufferevent with a non-draining output and a write high watermark; output filter moving less than the limit per call"),
+ "C20-read-timeout-set-while-suspended": ("C20", "/tmp/adv_C20", "demo/patch.diff", "demo/run.sh", ["C20"],
+    "pair/filter bufferevent read-suspended at its high watermark; bufferevent_set_timeouts with a read timeout called during the suspension"),
+ "C20-sock-outbuf-add-restarts-write-timeout": ("C20", "/tmp/adv_C20", "demo/patch2.diff", "demo/run.sh demo2", ["C20"],
+    "socket bufferevent with a write timeout, output pending against a stalled peer, application appends to the output more often than the timeout"),
+ "C24-truncated-chunked-accepted": ("C24", "/tmp/adv_C24", "demo/patch.diff", "demo/run.sh", ["C24"],
+    "chunked response with the peer closing between chunks (after the headers, after a chunk's data, inside a chunk-size line)"),
+ "C24-trailer-state-not-entered": ("C24", "/tmp/adv_C24", "demo/patch2.diff", "demo/run.sh demo2.c", ["C24"],
+    "chunked response with a read boundary between the last-chunk line and the end of the trailer section"),
+ "C26-default-content-type-unvalidated": ("C26", "/tmp/adv_C26", "demo/patch.diff", "demo/run.sh", ["C26"],
+    "evhttp_set_default_content_type with CR/LF in it, a response needing a body, handler not setting Content-Type"),
+ "C26-header-value-only-first-linebreak-checked": ("C26", "/tmp/adv_C26", "demo/patch2.diff", "demo/run.sh", ["C26"],
+    "header value whose first line break is a legal continuation and which has a later CR/LF followed by a field"),
+ "C31-masked-frame-complete-too-early": ("C31", "/tmp/adv_C31", "demo/patch.diff", "demo/run.sh", ["C31"],
+    "masked frame with a read boundary leaving the last 1-4 payload bytes outstanding"),
+ "C19-deferred-eventcb-overwrites-pending": ("C19", "/tmp/adv_C19", "demo/patch.diff", "demo/run.sh", ["C19"],
+    "BEV_OPT_DEFER_CALLBACKS and two event conditions coalesced into one deferred run (connect completes while the peer already hung up)"),
+ "C19-connecting-flag-stale-after-refusal": ("C19", "/tmp/adv_C19", "demo/patch2.diff", "demo/run.sh 2", ["C19"],
+    "asynchronous connect refusal, then the application re-arms write on the same bufferevent"),
+ "C39-hosts-comment-glued-to-name": ("C39", "/tmp/adv_C39", "demo/patch.diff", "demo/run.sh", ["C39"],
+    "hosts line with '#' glued to a hostname followed by more words"),
+ "C39-option-name-prefix-match": ("C39", "/tmp/adv_C39", "demo/patch2.diff", "demo/run.sh", ["C39"],
+    "option token with a known option name as strict prefix followed by something other than ':'"),
+ "C22-group-set-cfg-clips-against-old-cfg": ("C22", "/tmp/adv_C22", "demo/patch.diff", "demo/run.sh", ["C22"],
+    "bufferevent_rate_limit_group_set_cfg on a live group with a new burst smaller than the bucket's current level"),
+ "C22-refill-not-rearmed-for-write-debt": ("C22", "/tmp/adv_C22", "demo/patch2.diff", "demo/run.sh", ["C22"],
+    "per-bufferevent write bucket more than one tick's rate in debt (large bufferevent_decrement_write_limit) when the refill timer fires"),
+ "C30-wildcard-cannot-match-empty": ("C30", "/tmp/adv_C30", "demo/patch.diff", "demo/run.sh", ["C30"],
+    "vhost pattern whose '*' must match the empty string (www*.example.com vs Host: www.example.com)"),
+ "C30-allowed-methods-of-vhost-used": ("C30", "/tmp/adv_C30", "demo/patch2.diff", "demo/run.sh demo2", ["C30"],
+    "non-default allowed methods on the root server, a vhost, request routed to the vhost with a method in exactly one of the two masks"),
+ "C33-reply-buffer-sized-by-ancount": ("C33", "/tmp/adv_C33", "demo/patch.diff", "demo/run.sh", ["C33"],
+    "reply with one A/AAAA record whose RDLENGTH exceeds max(16*ANCOUNT, 255) (multiple of 4/16)"),
+ "C33-qdcount-zero-accepted": ("C33", "/tmp/adv_C33", "demo/patch2.diff", "demo/run2.sh", ["C33"],
+    "reply with the right ID, QR set, rcode 0 and QDCOUNT=0 followed by an answer of the queried type"),
+ "C28-join-drops-port-zero": ("C28", "/tmp/adv_C28", "demo/patch.diff", "demo/run.sh", ["C28"],
+    "explicit port whose value is zero (parsed or set with evhttp_uri_set_port)"),
+ "C28-strip-brackets-ipvfuture": ("C28", "/tmp/adv_C28", "demo/patch2.diff", "demo/run.sh demo2.c", ["C28"],
+    "EVHTTP_URI_HOST_STRIP_BRACKETS with an IPvFuture literal host"),
  "C45-prepare-timeout-recomputed": ("C45", "/tmp/adv_C45", "demo/patch2.diff", "demo/run.sh", ["C45"],
     "a prepare watcher that adds/removes a timer or activates an event"),
 }
